@@ -285,6 +285,10 @@ impl GraphInline {
             GraphInline::Space => " ".into(),
             GraphInline::SoftBreak => "\n".into(),
             GraphInline::LineBreak => "\n".into(),
+            // a bare wiki link shows its destination
+            GraphInline::Link(url, _, LinkType::WikiLink, inlines) if inlines.is_empty() => {
+                url.clone()
+            }
             GraphInline::Link(_, _, _, inlines) => to_plain_text(inlines),
             GraphInline::Image(_, _, inlines) => to_plain_text(inlines),
             GraphInline::RawInline(_, content) => content.clone(),
